@@ -36,6 +36,7 @@ struct ActorHandle {
 pub struct Opts {
     pub cancelable: bool,
     pub ready: bool,
+    pub disabled: bool, // the harness was built against fastrace without the `enable` feature
     pub ring: usize,
     pub queue: usize,
     pub stack: usize,
@@ -88,14 +89,14 @@ impl Sched {
                     shared().chan_thread.lock().unwrap().insert(chan, t);
                 }
                 rt::post(Role::Thread(t), StopKind::Done);
-                let mut actor = Actor { t, held: Vec::new() };
+                let mut actor = Actor { t };
                 while let Ok(Cmd::Run(step)) = rx.recv() {
                     let is_exit = step["op"] == "exit";
                     exec(&mut actor, &rc, &step);
                     if is_exit {
                         // what the caller still holds is released in reverse order, then the
                         // thread-local destructors run (Sender::drop among them)
-                        while let Some(h) = actor.held.pop() {
+                        while let Some(h) = crate::ops::held_pop() {
                             drop(h);
                         }
                         return;
@@ -447,6 +448,10 @@ impl Sched {
     }
 }
 
+fn os_threads() -> usize {
+    std::fs::read_dir("/proc/self/task").map(|d| d.count()).unwrap_or(0)
+}
+
 fn stats_event(foreign: &[usize]) -> Value {
     let st = verif::collector_stats();
     let live: Vec<usize> = shared().chan_thread.lock().unwrap().keys().copied().collect();
@@ -471,12 +476,16 @@ pub fn run(input: &str, output: &str, opts: Opts) -> std::io::Result<i32> {
     verif::set_queue_capacity(opts.queue);
     verif::set_stack_capacity(opts.stack);
     rt::install_hooks();
+    let threads_before = os_threads();
     if opts.ready {
         fastrace::set_reporter(
             rt::CapturingReporter,
             fastrace::collector::Config::default().cancelable(opts.cancelable),
         );
     }
+    // the collector thread, if any, starts right inside set_reporter
+    std::thread::sleep(Duration::from_millis(20));
+    let sr_threads = os_threads() as i64 - threads_before as i64;
     std::panic::set_hook(Box::new(|_| {}));
 
     let (tx, rx) = mpsc::channel::<Stop>();
@@ -516,7 +525,7 @@ pub fn run(input: &str, output: &str, opts: Opts) -> std::io::Result<i32> {
         s.acc.lock().unwrap().clear();
         let foreign: Vec<usize> = verif::collector_stats().active.iter().map(|a| rt::cid_out(a.collect_id)).collect();
         let eff = |v: usize, d: usize| if v == 0 { d } else { v };
-        emit(json!({"ev":"reset","run":id,"cfg":{"cancelable":opts.cancelable,"enabled":true,"ready":opts.ready,
+        emit(json!({"ev":"reset","run":id,"cfg":{"cancelable":opts.cancelable,"enabled":!opts.disabled,"ready":opts.ready,"sr_threads":sr_threads,
             "queue":eff(opts.queue, 10240),"stack":eff(opts.stack, 4096),"ring":eff(opts.ring, 10240),"foreign":foreign}}));
         s.steer.store(true, Ordering::SeqCst);
 
